@@ -153,6 +153,32 @@ def check_path(path, x0, t0, V, exact, horizon=None, limits=None, closed=False, 
     return bad, stats
 
 
+def refused_initial_assignment(rng, m, x0, t0, counters):
+    """An assignment of initial values that is (rightly) refused - a state vector of the wrong length together with ANOTHER, valid
+    initial time, a time that is not a number, a (start, end) span given as initial time - made before the model is used.  Whatever it
+    raises, the model keeps the initial state and time it had.  Returns the form used."""
+    x0 = [float(v) for v in np.asarray(x0, dtype=float).reshape(-1)]
+    forms = ["state-too-long+other-time"] * 3 + ["time-not-a-number", "time-is-a-span", "state-too-long"] + (["state-too-short+other-time"] * 2 if len(x0) > 1 else [])
+    form = rng.choice(forms)
+    try:
+        if form == "state-too-long+other-time":
+            m.initial_values = (x0 + [1.0], t0 + 1.5)
+        elif form == "state-too-short+other-time":
+            m.initial_values = (x0[:-1], t0 + 0.75)
+        elif form == "time-not-a-number":
+            m.initial_values = (list(m.initial_state), "soon")
+        elif form == "time-is-a-span":
+            m.initial_time = (t0 + 0.5, t0 + 10.0)
+        else:
+            m.initial_state = x0 + [2.0, 3.0]
+        # pygom took it after all: put the values of the case back, and count it
+        m.initial_values = (x0, t0)
+        counters["refused_initial_assignments_accepted"] = counters.get("refused_initial_assignments_accepted", 0) + 1
+    except Exception:
+        counters["refused_initial_assignments"] = counters.get("refused_initial_assignments", 0) + 1
+    return form
+
+
 def numeric_V(spec, theta):
     ref = RefModel(spec)
     x = [1.0] * len(spec["states"])
@@ -185,6 +211,9 @@ def run_config(m, spec, V, x0, horizon, cfg, hostile=None, closed=False, grid=No
     np.random.seed(cfg["seed"])
     probe = SimProbe(hostile=hostile, conserve_sum=closed, limits=spec["limits"] if check_limits else None)
     res = {"witnesses": [], "counters": probe.counters, "stats": [], "inconclusive": None, "probe": probe, "out": None}
+    if cfg.get("refused_first"):
+        import random as _random
+        cfg["refused_first"] = refused_initial_assignment(_random.Random(cfg["seed"]), m, x0, 0.0, probe.counters)
     t_arg = horizon if grid is None else grid
     if grid is not None:
         horizon = float(np.asarray(grid, dtype=float)[-1])
